@@ -30,6 +30,45 @@ fn hex_str(s: &str) -> String {
 /// simulator (`Sym::init` + `reset` + `finish`), which must give what a fresh `Sym::new` gives.
 static PREV: std::sync::Mutex<Option<(Sym, String)>> = std::sync::Mutex::new(None);
 
+thread_local! {
+    /// set on the thread that repeats a case in isolation: it neither uses nor replaces the kept simulator
+    pub static TWIN: std::cell::Cell<bool> = std::cell::Cell::new(false);
+}
+
+/// `Debug` of an interpreter with the entries of its macro table (a `HashMap`, iterated in an order that differs
+/// from thread to thread) sorted: the entries are the top-level items between the braces that follow `macros: `.
+fn sorted_macros(d: &str) -> String {
+    let key = "macros: {";
+    let start = match d.find(key) { Some(k) => k + key.len(), None => return d.to_string() };
+    let bytes = d.as_bytes();
+    let (mut depth, mut in_str, mut esc) = (0i32, false, false);
+    let mut items: Vec<String> = vec![];
+    let mut cur = String::new();
+    let mut end = d.len();
+    for (off, ch) in d[start..].char_indices() {
+        let i = start + off;
+        if in_str {
+            cur.push(ch);
+            if esc { esc = false; } else if ch == '\\' { esc = true; } else if ch == '"' { in_str = false; }
+            continue;
+        }
+        match ch {
+            '"' => { in_str = true; cur.push(ch); }
+            '{' | '[' | '(' => { depth += 1; cur.push(ch); }
+            '}' | ']' | ')' => {
+                if depth == 0 { end = i; break; }
+                depth -= 1; cur.push(ch);
+            }
+            ',' if depth == 0 => { items.push(cur.trim().to_string()); cur = String::new(); }
+            _ => cur.push(ch),
+        }
+    }
+    let _ = bytes;
+    if !cur.trim().is_empty() { items.push(cur.trim().to_string()); }
+    items.sort();
+    format!("{}{}{}", &d[..start], items.join(", "), &d[end..])
+}
+
 fn finish_report(int: Int<'_>, seed: u64, label: &str) -> String {
     let int_again = int.clone();
     let rec = int.iter_ast().count();
@@ -56,6 +95,9 @@ fn finish_report(int: Int<'_>, seed: u64, label: &str) -> String {
     for h in &rec_hashes { s.push_str(&format!(" {:016x}", h)); }
     s.push_str(if rec_into == rec_hashes { " reci 1" } else { " reci 0" });
     // the same program on the simulator the previous case left behind
+    if TWIN.with(|t| t.get()) {
+        return s;
+    }
     let mut prev = PREV.lock().unwrap_or_else(|e| e.into_inner());
     if let Some((mut old, old_label)) = prev.take() {
         qvnt::verif::seed(seed);
@@ -134,11 +176,7 @@ pub fn run(toks: &[&str]) -> String {
                 let mut snap = format!("{:?}|{}|{}|{}|{}", int.get_ops_tree(), int.get_q_alias(), int.get_c_alias(),
                                        int.iter_ast().count(), {
                     // Debug of the interpreter with the macro table in sorted order
-                    let d = format!("{:?}", int);
-                    let mut parts: Vec<&str> = d.split("Macro {").collect();
-                    let head = parts.remove(0).to_string();
-                    parts.sort();
-                    format!("{}{}", head, parts.join("Macro {"))
+                    sorted_macros(&format!("{:?}", int))
                 });
                 snap = snap.replace(' ', "");
                 hex_str(&snap)
